@@ -263,5 +263,15 @@ class DeprecatedOptions:
                         new_opt,
                     )
                 )
+            elif (
+                new_opt in config.syms
+                and dep_opt in self.inversions
+                and config.syms[new_opt].orig_type == BOOL
+                and config.syms[new_opt].config_string
+            ):
+                # The replacement is written out as n, so it has no #define of its own; its
+                # inverted alias is y (as in the sdkconfig and CMake outputs) and must be defined.
+                has_defines = True
+                chunks.append("#define {}{} 1\n".format(self.config_prefix, dep_opt))
 
         return "".join(chunks) if has_defines else ""
